@@ -7,6 +7,8 @@ import Sds.Driver.Bits
 import Sds.Driver.Vec
 import Sds.Driver.Bv
 import Sds.Driver.Sparse
+import Sds.Driver.RL
+import Sds.Driver.WM
 
 namespace Sds.Driver
 open Sds Outcome
@@ -30,6 +32,8 @@ def evalRecipe (st : DState) (toks : List String) (impl : String) : Eval :=
   | "iv" :: name :: rest => evalIv st name rest
   | "bv" :: name :: rest => evalBv st name rest
   | "sp" :: name :: rest => evalSparse st name rest impl
+  | "rl" :: name :: rest => evalRl st name rest impl
+  | "wm" :: name :: rest => evalWm st name rest impl
   | _ => { st := st, model := "driver:unknown-op" }
 
 structure Stats where
